@@ -1,4 +1,561 @@
-/-! Path: executable models (no Mathlib imports). -/
+import Solvor.Gen.Kernels
+/-!
+Path: executable models of `solvor/bfs.py`, `dijkstra.py`, `a_star.py`, `bellman_ford.py`,
+`floyd_warshall.py` and `utils/helpers.py: reconstruct_path` (property C11), plus the Bool
+checkers of the specification side.  No Mathlib imports.
+
+Conventions.  Nodes are `Nat` (the harness numbers the labels `0..n-1`).  A graph is its edge list
+`List (Edge W)`, an edge is `(u, v, w)`; duplicates, self loops and any order are allowed and the
+order is the order in which the callbacks / edge lists of the Python code present the edges.
+Weights are generic (`W`): `Int` for all graph solvers (the harness scales dyadic rationals to
+integers), `Z2` (pairs `(a, b) ≙ a + b·√2` with the exact order) for the grid optimum and `Float`
+for the bit-level mirror of `astar_grid`.  `∞` is `none`.  Tables indexed by node are
+`Tab α = List (Option α)` (a Python `dict`/list: `none` = key absent / `inf` / `-1`).
+-/
 namespace Solvor.Path
+open Solvor.Gen (Status)
+
+/-! ## Tables -/
+
+abbrev Tab (α : Type) := List (Option α)
+
+def look {α : Type} (t : Tab α) (i : Nat) : Option α := t.getD i none
+
+def Tab.empty {α : Type} (n : Nat) : Tab α := List.replicate n none
+
+/-! ## Graphs, walks, specification-side checkers -/
+
+abbrev Edge (W : Type) := Nat × Nat × W
+
+/-- The callback `neighbors(u)` the harness hands to the Python code: targets (and weights) of the
+edges leaving `u`, in edge-list order. -/
+def adjOf {W : Type} (E : List (Edge W)) (u : Nat) : List (Nat × W) :=
+  E.filterMap fun e => if e.1 = u then some (e.2.1, e.2.2) else none
+
+/-- unweighted view -/
+def succOf {W : Type} (E : List (Edge W)) (u : Nat) : List Nat := (adjOf E u).map (·.1)
+
+/-- `Walk E u t c`: there is a walk from `u` to `t` along edges of `E` whose weights sum to `c`. -/
+inductive Walk {W : Type} [Add W] [Zero W] (E : List (Edge W)) : Nat → Nat → W → Prop
+  | nil (u : Nat) : Walk E u u 0
+  | cons {u v t : Nat} {w c : W} : (u, v, w) ∈ E → Walk E v t c → Walk E u t (w + c)
+
+def Reach {W : Type} [Add W] [Zero W] (E : List (Edge W)) (s t : Nat) : Prop := ∃ c, Walk E s t c
+
+/-- `c` is the shortest-path distance from `s` to `t`. -/
+def IsDist {W : Type} [Add W] [Zero W] [LE W] (E : List (Edge W)) (s t : Nat) (c : W) : Prop :=
+  Walk E s t c ∧ ∀ c', Walk E s t c' → c ≤ c'
+
+/-- `c` is the least distance from `s` to a node of the goal set `T`. -/
+def IsGoalDist {W : Type} [Add W] [Zero W] [LE W] (E : List (Edge W)) (s : Nat) (T : List Nat)
+    (c : W) : Prop :=
+  (∃ t ∈ T, Walk E s t c) ∧ ∀ t ∈ T, ∀ c', Walk E s t c' → c ≤ c'
+
+section checkers
+variable {W : Type} [Add W] [Zero W] [LE W] [DecidableLE W] [DecidableEq W]
+
+/-- least weight among the parallel edges `u → v` (`none`: no such edge) -/
+def edgeCost (E : List (Edge W)) (u v : Nat) : Option W :=
+  E.foldl (fun acc e =>
+    if e.1 = u ∧ e.2.1 = v then
+      match acc with
+      | none => some e.2.2
+      | some m => if e.2.2 ≤ m then some e.2.2 else some m
+    else acc) none
+
+/-- Weight of a node path (cheapest parallel edge at every step); `none` if a step is not an edge
+or the path is empty. -/
+def pathCost (E : List (Edge W)) : List Nat → Option W
+  | [] => none
+  | [_] => some 0
+  | u :: v :: rest =>
+    match edgeCost E u v, pathCost E (v :: rest) with
+    | some w, some c => some (w + c)
+    | _, _ => none
+
+/-- `d` is a feasible potential: along every edge out of a node with a finite value the value
+grows by at most the edge weight (in particular the head's value is finite). -/
+def feasible (E : List (Edge W)) (d : Tab W) : Bool :=
+  E.all fun e =>
+    match look d e.1 with
+    | none => true
+    | some a =>
+      match look d e.2.1 with
+      | none => false
+      | some b => decide (b ≤ a + e.2.2)
+
+/-- `S` contains every head of an edge whose tail is in `S`. -/
+def closedUnder (E : List (Edge W)) (S : List Nat) : Bool :=
+  E.all fun e => !S.contains e.1 || S.contains e.2.1
+
+/-- Certificate for "no goal node is reachable": a closed set containing `s` and no goal. -/
+def unreachCert (E : List (Edge W)) (s : Nat) (T : List Nat) (S : List Nat) : Bool :=
+  S.contains s && closedUnder E S && T.all fun t => !S.contains t
+
+/-- The path starts at `s`, ends in `T`, uses existing edges and its weights sum to `cost`. -/
+def pathOK (E : List (Edge W)) (s : Nat) (T : List Nat) (path : List Nat) (cost : W) : Bool :=
+  path.head? == some s && (match path.getLast? with | some l => T.contains l | none => false) &&
+    pathCost E path == some cost
+
+/-- Certificate for "every walk from `s` to a goal of `T` weighs at least `c`": a feasible
+potential that is 0 at `s` and at least `c` (or infinite) on every goal. -/
+def lowerCert (E : List (Edge W)) (s : Nat) (T : List Nat) (pot : Tab W) (c : W) : Bool :=
+  feasible E pot && look pot s == some 0 &&
+    (T.all fun t => match look pot t with | none => true | some b => decide (c ≤ b))
+
+/-- Certificate for "`cost` is the least distance from `s` to the goal set `T` and `path`
+realises it". -/
+def distCert (E : List (Edge W)) (s : Nat) (T : List Nat) (pot : Tab W) (path : List Nat)
+    (cost : W) : Bool :=
+  lowerCert E s T pot cost && pathOK E s T path cost
+
+end checkers
+
+/-- Certificate for "a negative cycle is reachable from `s`": a path from `s` to `x` and a closed
+path through `x` of negative weight. -/
+def negCycleCert (E : List (Edge Int)) (s : Nat) (p cyc : List Nat) : Bool :=
+  p.head? == some s && (pathCost E p).isSome && p.getLast? == cyc.head? &&
+    cyc.head? == cyc.getLast? && cyc.head?.isSome &&
+    (match pathCost E cyc with | some c => decide (c < 0) | none => false)
+
+/-! ## `reconstruct_path` -/
+
+/-- `reconstruct_path(parent, current)`: follow `parent` while the key is present.  The Python
+loop has no bound; the mirror stops after `fuel` steps with `none` (= the loop would still be
+running; never observed, see `recon_chain` for the searches). -/
+def recon (parent : Tab Nat) : Nat → Nat → List Nat → Option (List Nat)
+  | 0, _, _ => none
+  | fuel + 1, cur, acc =>
+    match look parent cur with
+    | none => some (cur :: acc)
+    | some p => recon parent fuel p (cur :: acc)
+
+/-! ## BFS / DFS (`solvor/bfs.py`) -/
+
+structure SSt where
+  visited : List Nat       -- newest first
+  parent  : Tab Nat
+  frontier : List Nat      -- BFS: queue, head = next to pop; DFS: stack, head = top
+  deriving Repr
+
+inductive SOut where
+  | found (cur : Nat) (st : SSt)
+  | exhausted (st : SSt)        -- `while` left because the frontier is empty
+  | cutoff (st : SSt)           -- `iterations >= max_iter`
+
+/-- the body of `for neighbor in neighbors(current)` (BFS: append to the queue) -/
+def bfsDiscover (cur : Nat) (st : SSt) (nb : Nat) : SSt :=
+  if st.visited.contains nb then st
+  else ⟨nb :: st.visited, st.parent.set nb (some cur), st.frontier ++ [nb]⟩
+
+/-- DFS: push on the stack -/
+def dfsDiscover (cur : Nat) (st : SSt) (nb : Nat) : SSt :=
+  if st.visited.contains nb then st
+  else ⟨nb :: st.visited, st.parent.set nb (some cur), nb :: st.frontier⟩
+
+/-- `while queue and iterations < max_iter`: the fuel is `max_iter - iterations`. -/
+def searchLoop (disc : Nat → SSt → Nat → SSt) (succ : Nat → List Nat) (isGoal : Nat → Bool) :
+    Nat → SSt → SOut
+  | 0, st => .cutoff st
+  | k + 1, st =>
+    match st.frontier with
+    | [] => .exhausted st
+    | cur :: rest =>
+      if isGoal cur then .found cur { st with frontier := rest }
+      else searchLoop disc succ isGoal k ((succ cur).foldl (disc cur) { st with frontier := rest })
+
+def searchInit (n s : Nat) : SSt := ⟨[s], Tab.empty n, [s]⟩
+
+def bfsRun (n : Nat) (succ : Nat → List Nat) (s : Nat) (isGoal : Nat → Bool) (maxIter : Nat) : SOut :=
+  searchLoop bfsDiscover succ isGoal maxIter (searchInit n s)
+
+def dfsRun (n : Nat) (succ : Nat → List Nat) (s : Nat) (isGoal : Nat → Bool) (maxIter : Nat) : SOut :=
+  searchLoop dfsDiscover succ isGoal maxIter (searchInit n s)
+
+/-- What `bfs`/`dfs` return. `path` is `reconstruct_path`'s list, `cost = len(path) - 1`;
+`visited` is the returned set when `goal is None`. -/
+structure SRes where
+  status  : Status
+  path    : Option (List Nat)
+  cost    : Option Nat
+  visited : List Nat
+  deriving Repr
+
+/-- `okStatus` = OPTIMAL for bfs, FEASIBLE for dfs; `goalNone` = the `goal is None` mode. -/
+def searchResult (okStatus : Status) (goalNone : Bool) : SOut → SRes
+  | .found cur st =>
+    match recon st.parent st.visited.length cur [] with
+    | some p => ⟨okStatus, some p, some (p.length - 1), st.visited⟩
+    | none => ⟨okStatus, none, none, st.visited⟩          -- reconstruct_path would not return
+  | .exhausted st => if goalNone then ⟨.OPTIMAL, none, none, st.visited⟩ else ⟨.INFEASIBLE, none, none, st.visited⟩
+  | .cutoff st => if goalNone then ⟨.OPTIMAL, none, none, st.visited⟩ else ⟨.MAX_ITER, none, none, st.visited⟩
+
+def bfs {W : Type} (n : Nat) (E : List (Edge W)) (s : Nat) (T : List Nat) (goalNone : Bool) (maxIter : Nat) : SRes :=
+  searchResult .OPTIMAL goalNone (bfsRun n (succOf E) s (fun v => !goalNone && T.contains v) maxIter)
+
+def dfs {W : Type} (n : Nat) (E : List (Edge W)) (s : Nat) (T : List Nat) (goalNone : Bool) (maxIter : Nat) : SRes :=
+  searchResult .FEASIBLE goalNone (dfsRun n (succOf E) s (fun v => !goalNone && T.contains v) maxIter)
+
+/-! ## Bellman-Ford (`solvor/bellman_ford.py`) -/
+
+structure BFSt where
+  dist : Tab Int
+  par  : Tab Nat
+  deriving Repr
+
+/-- `dist[u] != inf and dist[u] + w < dist[v]` -/
+def relaxable (dist : Tab Int) (e : Edge Int) : Bool :=
+  match look dist e.1 with
+  | none => false
+  | some du =>
+    match look dist e.2.1 with
+    | none => true
+    | some dv => decide (du + e.2.2 < dv)
+
+def relax (st : BFSt) (e : Edge Int) : BFSt :=
+  match look st.dist e.1 with
+  | none => st
+  | some du => ⟨st.dist.set e.2.1 (some (du + e.2.2)), st.par.set e.2.1 (some e.1)⟩
+
+/-- one pass over the edge list; the flag is `updated` -/
+def bfRound (E : List (Edge Int)) (st : BFSt) : BFSt × Bool :=
+  E.foldl (fun (acc : BFSt × Bool) e => if relaxable acc.1.dist e then (relax acc.1 e, true) else acc) (st, false)
+
+/-- `for _ in range(n_nodes - 1)` with the `if not updated: break` -/
+def bfRounds (E : List (Edge Int)) : Nat → BFSt → BFSt
+  | 0, st => st
+  | k + 1, st =>
+    let r := bfRound E st
+    if r.2 then bfRounds E k r.1 else r.1
+
+def bfInit (n s : Nat) : BFSt := ⟨(Tab.empty n).set s (some 0), Tab.empty n⟩
+
+/-- `_reconstruct_indexed`: follow `parent` until `-1` -/
+def reconIdx (par : Tab Nat) : Nat → Nat → List Nat → Option (List Nat) := recon par
+
+structure BFRes where
+  status : Status
+  dist   : Tab Int                 -- final `dist` list (all nodes); meaningful unless UNBOUNDED
+  par    : Tab Nat
+  path   : Option (List Nat)       -- target mode, reachable target
+  cost   : Option Int
+  deriving Repr
+
+def bellmanFord (n : Nat) (E : List (Edge Int)) (s : Nat) (target : Option Nat) : BFRes :=
+  let st := bfRounds E (n - 1) (bfInit n s)
+  if E.any (relaxable st.dist) then ⟨.UNBOUNDED, st.dist, st.par, none, none⟩
+  else
+    match target with
+    | none => ⟨.OPTIMAL, st.dist, st.par, none, none⟩
+    | some t =>
+      match look st.dist t with
+      | none => ⟨.INFEASIBLE, st.dist, st.par, none, none⟩
+      | some c => ⟨.OPTIMAL, st.dist, st.par, reconIdx st.par (n + 1) t [], some c⟩
+
+/-- Negative-cycle extraction for the UNBOUNDED verdict (model side only: the code returns no
+cycle).  Relax the first relaxable edge once more, walk `n` parent steps back from its head to land
+on a cycle of the parent graph, then collect that cycle. -/
+def walkBack (par : Tab Nat) : Nat → Nat → Nat
+  | 0, v => v
+  | k + 1, v => match look par v with | none => v | some p => walkBack par k p
+
+def collectCycle (par : Tab Nat) (x : Nat) : Nat → Nat → List Nat → Option (List Nat)
+  | 0, _, _ => none
+  | k + 1, v, acc =>
+    match look par v with
+    | none => none
+    | some p => if p = x then some (x :: v :: acc) else collectCycle par x k p (v :: acc)
+
+def negCycleOf (n : Nat) (E : List (Edge Int)) (st : BFSt) : Option (List Nat) :=
+  match E.find? (relaxable st.dist) with
+  | none => none
+  | some e =>
+    let st' := relax st e
+    let x := walkBack st'.par n e.2.1
+    match collectCycle st'.par x (n + 1) x [] with
+    | some c => some c
+    | none => none
+
+/-! ## Floyd-Warshall (`solvor/floyd_warshall.py`) -/
+
+abbrev Mat := List (List (Option Int))
+
+def Mat.get (m : Mat) (i j : Nat) : Option Int := List.getD (List.getD m i []) j none
+def Mat.set (m : Mat) (i j : Nat) (v : Option Int) : Mat := List.set m i (List.set (List.getD m i []) j v)
+
+/-- `a + b < c` on floats with `inf` -/
+def optAddLt (a b c : Option Int) : Bool :=
+  match a, b with
+  | some x, some y => (match c with | none => true | some z => decide (x + y < z))
+  | _, _ => false
+
+def optAdd (a b : Option Int) : Option Int :=
+  match a, b with
+  | some x, some y => some (x + y)
+  | _, _ => none
+
+def fwInit (n : Nat) (E : List (Edge Int)) (directed : Bool) : Mat :=
+  let m0 : Mat := (List.range n).map fun i => (List.range n).map fun j => if i = j then some 0 else none
+  E.foldl (fun m e =>
+    let put (m : Mat) (u v : Nat) : Mat :=
+      match m.get u v with
+      | none => m.set u v (some e.2.2)
+      | some x => if e.2.2 < x then m.set u v (some e.2.2) else m
+    let m := put m e.1 e.2.1
+    if directed then m else put m e.2.1 e.1) m0
+
+def fwLoop (n : Nat) (m : Mat) : Mat :=
+  (List.range n).foldl (fun m k =>
+    (List.range n).foldl (fun m i =>
+      (List.range n).foldl (fun m j =>
+        if optAddLt (m.get i k) (m.get k j) (m.get i j) then m.set i j (optAdd (m.get i k) (m.get k j)) else m) m) m) m
+
+structure FWRes where
+  status : Status
+  mat    : Option Mat
+
+def floydWarshall (n : Nat) (E : List (Edge Int)) (directed : Bool) : FWRes :=
+  let m := fwLoop n (fwInit n E directed)
+  if (List.range n).any (fun i => match m.get i i with | some x => decide (x < 0) | none => false)
+  then ⟨.UNBOUNDED, none⟩ else ⟨.OPTIMAL, some m⟩
+
+/-! ## Dijkstra and A* (`solvor/dijkstra.py`, `solvor/a_star.py`) -/
+
+/-- The arithmetic the searches need, so that one mirror serves `Int`, `Z2` and `Float`. -/
+structure Num (W : Type) where
+  add  : W → W → W
+  lt   : W → W → Bool
+  zero : W
+
+structure HSt (W : Type) where
+  g       : Tab W
+  parent  : Tab Nat
+  closed  : List Nat
+  heap    : List (W × W × Nat × Nat)      -- (f, g, counter, node); Dijkstra: f = g
+  counter : Nat
+  iters   : Nat
+  rerelax : Nat                            -- relaxations that improved an already known `g`
+
+inductive HOut (W : Type) where
+  | found (cur : Nat) (st : HSt W)
+  | infeasible (st : HSt W)
+  | maxIter (st : HSt W)
+  | fuel                                    -- model fuel exhausted (never: pops ≤ pushes ≤ |E| + 1)
+
+/-- `heappop` on tuples `(f, -g, counter, node)`: least `f`, then largest `g`, then least
+counter (counters are unique, so nodes are never compared). -/
+def keyLt {W : Type} (N : Num W) (a b : W × W × Nat × Nat) : Bool :=
+  N.lt a.1 b.1 || (!N.lt b.1 a.1 && (N.lt b.2.1 a.2.1 || (!N.lt a.2.1 b.2.1 && a.2.2.1 < b.2.2.1)))
+
+def popMin {W : Type} (N : Num W) : List (W × W × Nat × Nat) → Option ((W × W × Nat × Nat) × List (W × W × Nat × Nat))
+  | [] => none
+  | x :: xs =>
+    match popMin N xs with
+    | none => some (x, [])
+    | some (m, rest) => if keyLt N m x then some (m, x :: rest) else some (x, xs)
+
+/-- body of `for neighbor, edge_cost in neighbors(current)`; `fOf g v` is the heap key
+(`g` for Dijkstra, `g + weight * h(v)` for A*) -/
+def hRelax {W : Type} (N : Num W) (fOf : W → Nat → W) (cur : Nat) (gcur : W) (st : HSt W) (nb : Nat × W) : HSt W :=
+  if st.closed.contains nb.1 then st
+  else
+    let tg := N.add gcur nb.2
+    let better := match look st.g nb.1 with | none => true | some old => N.lt tg old
+    if better then
+      { st with g := st.g.set nb.1 (some tg), parent := st.parent.set nb.1 (some cur),
+                heap := (fOf tg nb.1, tg, st.counter, nb.1) :: st.heap, counter := st.counter + 1,
+                rerelax := st.rerelax + (if (look st.g nb.1).isSome then 1 else 0) }
+    else st
+
+/-- `while heap and iterations < max_iter` of `dijkstra` / `astar` (the two differ in the heap key
+only: for Dijkstra the popped `cost` equals `g[current]`).  The `max_cost` test comes before the
+goal test (the repaired order, see proposed_fixes/C11_max_cost.md). -/
+def hLoop {W : Type} (N : Num W) (adj : Nat → List (Nat × W)) (fOf : W → Nat → W) (isGoal : Nat → Bool)
+    (maxIter : Nat) (maxCost : Option W) : Nat → HSt W → HOut W
+  | 0, _ => .fuel
+  | fuel + 1, st =>
+    if st.iters < maxIter then
+      match popMin N st.heap with
+      | none => .infeasible st
+      | some ((_, gc, _, cur), rest) =>
+        if st.closed.contains cur then hLoop N adj fOf isGoal maxIter maxCost fuel { st with heap := rest }
+        else
+          let st := { st with heap := rest, iters := st.iters + 1, closed := cur :: st.closed }
+          let gcur := match look st.g cur with | some x => x | none => gc
+          if (match maxCost with | some m => N.lt m gcur | none => false) then
+            hLoop N adj fOf isGoal maxIter maxCost fuel st
+          else if isGoal cur then .found cur st
+          else hLoop N adj fOf isGoal maxIter maxCost fuel ((adj cur).foldl (hRelax N fOf cur gcur) st)
+    else .maxIter st
+
+structure HRes (W : Type) where
+  status  : Status
+  path    : Option (List Nat)
+  cost    : Option W
+  g       : Tab W
+  closed  : List Nat
+  rerelax : Nat
+  fuelOut : Bool
+
+def hSearch {W : Type} (N : Num W) (n nEdges : Nat) (adj : Nat → List (Nat × W)) (fOf : W → Nat → W)
+    (s : Nat) (isGoal : Nat → Bool) (maxIter : Nat) (maxCost : Option W) (okStatus : Status) : HRes W :=
+  let st0 : HSt W := ⟨(Tab.empty n).set s (some N.zero), Tab.empty n, [], [(fOf N.zero s, N.zero, 0, s)], 1, 0, 0⟩
+  match hLoop N adj fOf isGoal maxIter maxCost (nEdges + 2) st0 with
+  | .found cur st => ⟨okStatus, recon st.parent (n + 1) cur [], look st.g cur, st.g, st.closed, st.rerelax, false⟩
+  | .infeasible st => ⟨.INFEASIBLE, none, none, st.g, st.closed, st.rerelax, false⟩
+  | .maxIter st => ⟨.MAX_ITER, none, none, st.g, st.closed, st.rerelax, false⟩
+  | .fuel => ⟨.MAX_ITER, none, none, [], [], 0, true⟩
+
+def intNum : Num Int := ⟨(· + ·), fun a b => decide (a < b), 0⟩
+
+def dijkstra (n : Nat) (E : List (Edge Int)) (s : Nat) (T : List Nat) (maxIter : Nat) (maxCost : Option Int) : HRes Int :=
+  hSearch intNum n E.length (adjOf E) (fun g _ => g) s T.contains maxIter maxCost .OPTIMAL
+
+/-- `astar` with `weight = wnum / wden` (`wden > 0`) and heuristic table `h` (scaled like the
+weights).  Heap keys are compared after multiplying by `wden`; `max_cost` is scaled the same. -/
+def astar (n : Nat) (E : List (Edge Int)) (s : Nat) (T : List Nat) (h : List Int) (wnum wden : Int)
+    (maxIter : Nat) (maxCost : Option Int) : HRes Int :=
+  hSearch intNum n E.length (adjOf E) (fun g v => wden * g + wnum * h.getD v 0) s T.contains maxIter maxCost
+    (if wnum = wden then .OPTIMAL else .FEASIBLE)
+
+/-- The potential the Dijkstra / A* mirror hands to `distCert` when it stops at a goal of cost
+`c`: `min (g v) c` on nodes with a `g`, `c` elsewhere (exact on the closed nodes, a lower bound
+elsewhere when all weights are non-negative). -/
+def cappedPot (n : Nat) (g : Tab Int) (c : Int) : Tab Int :=
+  (List.range n).map fun v => match look g v with | some x => some (if x < c then x else c) | none => some c
+
+/-- `dijkstra_edges(..., target=None)`: the lazy-deletion loop with `(dist, node)` heap entries
+(ties on `dist` are broken by the node index). -/
+def deLoop (adj : Nat → List (Nat × Int)) : Nat → Tab Int → List (Int × Nat) → Option (Tab Int)
+  | 0, _, _ => none
+  | fuel + 1, dist, heap =>
+    match heap with
+    | [] => some dist
+    | x :: xs =>
+      let m := xs.foldl (fun m y => if y.1 < m.1 || (y.1 == m.1 && y.2 < m.2) then y else m) x
+      let rest := (x :: xs).erase m
+      if (match look dist m.2 with | some d => decide (m.1 > d) | none => false) then deLoop adj fuel dist rest
+      else
+        let (dist, heap) := (adj m.2).foldl (fun (acc : Tab Int × List (Int × Nat)) nb =>
+          let nd := m.1 + nb.2
+          if (match look acc.1 nb.1 with | some d => decide (nd < d) | none => true)
+          then (acc.1.set nb.1 (some nd), (nd, nb.1) :: acc.2) else acc) (dist, rest)
+        deLoop adj fuel dist heap
+
+def dijkstraAll (n : Nat) (E : List (Edge Int)) (s : Nat) : Option (Tab Int) :=
+  deLoop (adjOf E) (E.length + 2) ((Tab.empty n).set s (some 0)) [(0, s)]
+
+/-! ## `ℤ[√2]` with its exact order, grids (`astar_grid`) -/
+
+/-- `(a, b) ≙ a + b·√2` -/
+structure Z2 where
+  a : Int
+  b : Int
+  deriving DecidableEq, Repr
+
+namespace Z2
+instance : Add Z2 := ⟨fun x y => ⟨x.a + y.a, x.b + y.b⟩⟩
+instance : Zero Z2 := ⟨⟨0, 0⟩⟩
+/-- `0 ≤ a + b√2`, decided by squaring -/
+def nonneg (x : Z2) : Bool :=
+  if 0 ≤ x.a then (if 0 ≤ x.b then true else decide (2 * (x.b * x.b) ≤ x.a * x.a))
+  else (if 0 ≤ x.b then decide (x.a * x.a ≤ 2 * (x.b * x.b)) else false)
+def le (x y : Z2) : Bool := nonneg ⟨y.a - x.a, y.b - x.b⟩
+def lt (x y : Z2) : Bool := le x y && x != y
+instance : LE Z2 := ⟨fun x y => le x y = true⟩
+instance : DecidableLE Z2 := fun x y => inferInstanceAs (Decidable (le x y = true))
+def num : Num Z2 := ⟨(· + ·), lt, 0⟩
+end Z2
+
+/-- `y ≤ b·√2` for a rational `y` -/
+def ratLeSqrt2 (y : Rat) (b : Int) : Bool :=
+  if 0 ≤ b then decide (y ≤ 0) || decide (y * y ≤ 2 * (b * b : Int))
+  else decide (y ≤ 0) && decide ((2 * (b * b : Int) : Rat) ≤ y * y)
+
+/-- `b·√2 ≤ y` -/
+def sqrt2LeRat (b : Int) (y : Rat) : Bool :=
+  if 0 ≤ b then decide (0 ≤ y) && decide ((2 * (b * b : Int) : Rat) ≤ y * y)
+  else decide (0 ≤ y) || decide (y * y ≤ 2 * (b * b : Int))
+
+/-- `|cost - (a + b√2)/scale| ≤ tol·(1 + cost)`, exactly -/
+def withinTol (cost : Rat) (opt : Z2) (scale : Nat) (tol : Rat) : Bool :=
+  let x := cost * scale - opt.a
+  let t := tol * (1 + cost) * scale
+  ratLeSqrt2 (x - t) opt.b && sqrt2LeRat opt.b (x + t)
+
+/-- `_DIRS_8` / `_DIRS_4` of `a_star.py` in their `itertools.product` order. -/
+def dirs8 : List (Int × Int) := [(-1, -1), (-1, 0), (-1, 1), (0, -1), (0, 1), (1, -1), (1, 0), (1, 1)]
+def dirs4 : List (Int × Int) := [(-1, 0), (0, -1), (0, 1), (1, 0)]
+
+structure Grid where
+  rows : Nat
+  cols : Nat
+  cells : List (List Int)
+  blocked : List Int
+  costs : List (Int × Int)       -- cell value ↦ scaled cost (`cost_map`); default = `scale`
+  scale : Int
+  eight : Bool
+
+def Grid.cell (G : Grid) (r c : Nat) : Int := (G.cells.getD r []).getD c 0
+def Grid.id (G : Grid) (r c : Nat) : Nat := r * G.cols + c
+
+/-- the generator `neighbors(pos)`: `(cell id, base cost scaled, diagonal?)` in direction order -/
+def Grid.nbrs (G : Grid) (v : Nat) : List (Nat × Int × Bool) :=
+  if G.cols = 0 then [] else
+  let r : Int := (v / G.cols : Nat)
+  let c : Int := (v % G.cols : Nat)
+  (if G.eight then dirs8 else dirs4).filterMap fun d =>
+    let nr := r + d.1
+    let nc := c + d.2
+    if 0 ≤ nr ∧ nr < G.rows ∧ 0 ≤ nc ∧ nc < G.cols then
+      let cell := G.cell nr.toNat nc.toNat
+      if G.blocked.contains cell then none
+      else
+        let base := match G.costs.find? (·.1 == cell) with | some p => p.2 | none => G.scale
+        some (G.id nr.toNat nc.toNat, base, d.1 != 0 && d.2 != 0)
+    else none
+
+/-- the grid as an edge list over `ℤ[√2]` (straight step `(base, 0)`, diagonal `(0, base)`) -/
+def Grid.edgesZ2 (G : Grid) : List (Edge Z2) :=
+  (List.range (G.rows * G.cols)).flatMap fun v =>
+    (G.nbrs v).map fun nb => (v, nb.1, if nb.2.2 then (⟨0, nb.2.1⟩ : Z2) else ⟨nb.2.1, 0⟩)
+
+/-- exact optimum: Dijkstra over `ℤ[√2]` (A* mirror with `h = 0`), no cut-offs -/
+def gridExact (G : Grid) (s t : Nat) : HRes Z2 :=
+  let E := G.edgesZ2
+  hSearch Z2.num (G.rows * G.cols) E.length (adjOf E) (fun g _ => g) s (· == t) (E.length + 2) none .OPTIMAL
+
+/-- potential for the grid certificate -/
+def cappedPotZ2 (n : Nat) (g : Tab Z2) (c : Z2) : Tab Z2 :=
+  (List.range n).map fun v => match look g v with | some x => some (if Z2.lt x c then x else c) | none => some c
+
+def floatNum : Num Float := ⟨(· + ·), fun a b => decide (a < b), 0.0⟩
+
+/-- The built-in heuristics, on floats exactly as written in `astar_grid` (`dr, dc` are Python
+ints; `** 0.5` is taken to be `sqrt`, which the harness checks on the values that occur). -/
+def gridH (name : String) (dr dc : Nat) : Float :=
+  let mx := Nat.max dr dc
+  let mn := Nat.min dr dc
+  match name with
+  | "euclidean" => Float.sqrt (Float.ofNat (dr * dr + dc * dc))
+  | "octile" => Float.ofNat mx + (Float.sqrt 2.0 - 1.0) * Float.ofNat mn
+  | "chebyshev" => Float.ofNat mx
+  | _ => Float.ofNat (dr + dc)
+
+/-- Bit-level mirror of `astar_grid` (floats: Lean's `Float` is CPython's double). -/
+def gridFloat (G : Grid) (s t : Nat) (hname : String) (weight : Float) (maxIter : Nat) : HRes Float :=
+  let n := G.rows * G.cols
+  let sc := Float.ofInt G.scale
+  let adj : Nat → List (Nat × Float) := fun v =>
+    (G.nbrs v).map fun nb =>
+      let base := Float.ofInt nb.2.1 / sc
+      (nb.1, if nb.2.2 then base * Float.sqrt 2.0 else base)
+  let h : Nat → Float := fun v =>
+    if G.cols = 0 then 0.0 else
+    let dr := Int.natAbs ((v / G.cols : Nat) - (t / G.cols : Nat) : Int)
+    let dc := Int.natAbs ((v % G.cols : Nat) - (t % G.cols : Nat) : Int)
+    gridH hname dr dc
+  hSearch floatNum n (8 * n) adj (fun g v => g + weight * h v) s (· == t) maxIter none
+    (if weight == 1.0 then .OPTIMAL else .FEASIBLE)
 
 end Solvor.Path
